@@ -30,6 +30,9 @@ def main():
     ap.add_argument("prop")
     ap.add_argument("--src", default=None)
     ap.add_argument("--no-verify", action="store_true")
+    ap.add_argument("--scratch", action="store_true",
+                    help="preliminary run: patch a scratch worktree and point the check at it with FCV_REPO "
+                         "(does not touch /repo, does not update meta.json's check_results)")
     ap.add_argument("--verify-only", action="store_true", help="confirm the seed in a scratch worktree only; do not touch /repo")
     ap.add_argument("--tier", default="quick")
     ap.add_argument("--extra-props", default="", help="comma separated: also run these properties' checks")
@@ -65,6 +68,23 @@ def main():
     if args.verify_only:
         json.dump(meta, open(meta_p, "w"), indent=1)
         print(json.dumps({"seed": args.seed_id, "verified": meta.get("verified")}))
+        return 0
+    if args.scratch:
+        wt = tempfile.mkdtemp(prefix="fcv_seedscratch_")
+        os.rmdir(wt)
+        try:
+            rc, out = sh(["git", "-C", "/repo", "worktree", "add", "-q", "--detach", wt, "HEAD"])
+            assert rc == 0, out
+            rc, out = sh(["git", "-C", wt, "apply", patch])
+            assert rc == 0, out
+            env = dict(os.environ, FCV_REPO=wt)
+            for prop in [args.prop] + [p for p in args.extra_props.split(",") if p]:
+                rc, out = sh([PY, os.path.join(VERIF, "harness", "vcheck.py"), prop, "--tier", args.tier], cwd=VERIF, env=env)
+                vl = [l for l in out.splitlines() if l.startswith("VIOLATION")]
+                print(json.dumps({"seed": args.seed_id, "prop": prop, "exit": rc, "line": vl[0] if vl else None,
+                                  "summary": out.strip().splitlines()[-1] if out.strip() else ""}))
+        finally:
+            sh(["git", "-C", "/repo", "worktree", "remove", "--force", wt])
         return 0
     # run the registered check(s) against /repo with the patch applied, then undo straight away
     results = {}
